@@ -26,6 +26,8 @@ from .fields import String2Key
 from .fields import SubPackets
 from .fields import UserAttributeSubPackets
 
+from .subpackets.types import EmbeddedSignatureHeader
+
 from .types import Packet
 from .types import Primary
 from .types import Private
@@ -485,6 +487,10 @@ class SignatureV4(Signature):
 
     def parse(self, packet):
         super(Signature, self).parse(packet)
+        # how much of the input lies behind this packet (the version octet has been read with the header); an embedded
+        # signature is handed exactly its own octets and carries no length of its own
+        end = None if isinstance(self.header, EmbeddedSignatureHeader) else len(packet) - (self.header.length - 1)
+
         self.sigtype = packet[0]
         del packet[0]
 
@@ -499,7 +505,14 @@ class SignatureV4(Signature):
         self.hash2 = packet[:2]
         del packet[:2]
 
-        self.signature.parse(packet)
+        if isinstance(self.signature, OpaqueSignature) and end is not None:
+            # the fields of an algorithm without an implementation here are one block that ends with the packet
+            n = max(len(packet) - end, 0)
+            self.signature.parse(packet[:n])
+            del packet[:n]
+
+        else:
+            self.signature.parse(packet)
 
 
 class SKESessionKey(VersionedPacket):
